@@ -1,11 +1,33 @@
-from jsim.envs.base import Adapter
+"""Snake: rules written from docs/environments/snake.md and the class docstring.
+
+Board of num_rows x num_cols. Actions 0..3 = up, right, down, left. The snake moves its head one
+cell; it grows by one when the head lands on the fruit (the tail then stays), otherwise the tail
+cell is vacated. A move is legal iff the new head is inside the board and not on a body cell other
+than the current tail. Reward +1 per fruit. The episode ends on an illegal move, when the snake
+fills the board, or at the time limit.
+"""
+from __future__ import annotations
+
+from typing import Any, Dict, List, Optional, Tuple
+
+import numpy as np
+
 from jsim.envs._mk import cfg, cross_tl
+from jsim.envs.base import Adapter
+
+DELTA = [(-1, 0), (0, 1), (1, 0), (0, -1)]
 
 
 class A(Adapter):
     name = "Snake"
     mask_mode = "flat"
     terminate_on_invalid = True
+    has_invalid_effect = True
+    has_physical = True
+    has_objective = True
+    objective_without_end = True
+    has_model = True
+    has_observer = True
 
     def configs(self):
         base = [cfg("r12c12", True, r=12, c=12, tl=None), cfg("r4c7", True, r=4, c=7, tl=None), cfg("r7c4", r=7, c=4, tl=None),
@@ -19,3 +41,186 @@ class A(Adapter):
 
     def time_limit(self, env, c):
         return 4000 if c.get("tl") is None else c["tl"]
+
+    # ---- rules ---------------------------------------------------------------------------------
+    @staticmethod
+    def _head(s: Any) -> Tuple[int, int]:
+        return int(s.head_position.row), int(s.head_position.col)
+
+    def legal(self, s: Any, env: Any) -> np.ndarray:
+        bs = np.asarray(s.body_state)
+        R, C = bs.shape
+        r, c = self._head(s)
+        out = np.zeros(4, bool)
+        for a, (dr, dc) in enumerate(DELTA):
+            nr, nc = r + dr, c + dc
+            if 0 <= nr < R and 0 <= nc < C and bs[nr, nc] <= 1:  # free, or the tail which moves away
+                out[a] = True
+        return out
+
+    def describe(self, s, env, idx):
+        return f"head={self._head(s)} length={int(s.length)} body_state=\n{np.asarray(s.body_state)}"
+
+    # ---- C05 -------------------------------------------------------------------------------------
+    def invalid_effect(self, ps, action, illegal, s, ts, env, cfg):
+        if int(ts.step_type) != 2:
+            return ("invalid_move_not_terminal", f"step_type {int(ts.step_type)} after an illegal move (head {self._head(ps)})")
+        if float(ts.reward) != 0.0:
+            return ("invalid_move_reward", f"reward {float(ts.reward)} != 0 on an illegal move")
+        if float(ts.discount) != 0.0:
+            return ("invalid_move_discount", f"discount {float(ts.discount)} != 0 on the terminal step")
+        return None
+
+    # ---- C07 -------------------------------------------------------------------------------------
+    def physical(self, ps, action, s, ts, env, cfg):
+        bs = np.asarray(s.body_state)
+        R, C = bs.shape
+        L = int(s.length)
+        r, c = self._head(s)
+        if not (0 <= r < R and 0 <= c < C):
+            return ("head_outside_grid", f"head {(r, c)} outside {R}x{C}")
+        if L < 1 or int(bs.max()) != L:
+            return ("length_disagrees_with_body", f"length {L} but max body_state {int(bs.max())}")
+        vals = np.sort(bs[bs > 0])
+        if not np.array_equal(vals, np.arange(1, L + 1)):
+            return ("body_not_numbered_1_to_length", f"body_state values {vals.tolist()} for length {L}")
+        if bs[r, c] != L:
+            return ("head_not_end_of_chain", f"body_state at head {(r, c)} is {int(bs[r, c])}, length {L}")
+        pos = {int(bs[i, j]): (i, j) for i, j in np.argwhere(bs > 0)}
+        for k in range(1, L):
+            (a, b), (a2, b2) = pos[k], pos[k + 1]
+            if abs(a - a2) + abs(b - b2) != 1:
+                return ("body_chain_not_adjacent", f"segments {k}@{pos[k]} and {k + 1}@{pos[k + 1]} are not 4-adjacent")
+        if not np.array_equal(np.asarray(s.body).astype(bool), bs > 0):
+            return ("body_disagrees_with_body_state", "state.body != (body_state > 0)")
+        if not np.array_equal(np.asarray(s.tail).astype(bool), bs == 1):
+            return ("tail_disagrees_with_body_state", "state.tail != (body_state == 1)")
+        fr, fc = int(s.fruit_position.row), int(s.fruit_position.col)
+        if not (0 <= fr < R and 0 <= fc < C):
+            return ("fruit_outside_grid", f"fruit {(fr, fc)}")
+        if bs[fr, fc] > 0:
+            return ("fruit_on_body", f"fruit {(fr, fc)} lies on body segment {int(bs[fr, fc])}")
+        return None
+
+    # ---- C08 -------------------------------------------------------------------------------------
+    def objective(self, hist, env, cfg):
+        return float(int(hist[-1].state.length) - 1)  # fruits eaten
+
+    # ---- C09 -------------------------------------------------------------------------------------
+    def model_step(self, ps, action, s, ts, env, cfg):
+        a = int(action)
+        legal = self.legal(ps, env)[a]
+        bs = np.asarray(ps.body_state)
+        R, C = bs.shape
+        r, c = self._head(ps)
+        nr, nc = r + DELTA[a][0], c + DELTA[a][1]
+        eaten = (nr, nc) == (int(ps.fruit_position.row), int(ps.fruit_position.col))
+        L = int(ps.length) + int(eaten)
+        tl = self.time_limit(env, cfg)
+        sc = int(ps.step_count) + 1
+        if int(s.step_count) != sc:
+            return ("step_count", f"step_count {int(s.step_count)} expected {sc}")
+        want_reward = 1.0 if eaten else 0.0
+        if abs(float(ts.reward) - want_reward) > 1e-6:
+            return ("reward", f"reward {float(ts.reward)} expected {want_reward}")
+        if legal:
+            nb = bs.copy() if eaten else np.clip(bs - 1, 0, None)
+            nb[nr, nc] = L
+            if not np.array_equal(np.asarray(s.body_state), nb):
+                return ("body_state", f"body_state differs from the rules after a legal move {a} from head {(r, c)}:\n{np.asarray(s.body_state)}\nvs\n{nb}")
+            if self._head(s) != (nr, nc):
+                return ("head", f"head {self._head(s)} expected {(nr, nc)}")
+            if int(s.length) != L:
+                return ("length", f"length {int(s.length)} expected {L}")
+            full = bool((nb > 0).all())
+            fr, fc = int(s.fruit_position.row), int(s.fruit_position.col)
+            if eaten and not full:
+                if not (0 <= fr < R and 0 <= fc < C) or nb[fr, fc] > 0:
+                    return ("new_fruit_on_body", f"new fruit {(fr, fc)} is not on a free cell")
+            if not eaten and (fr, fc) != (int(ps.fruit_position.row), int(ps.fruit_position.col)):
+                return ("fruit_moved", f"fruit moved to {(fr, fc)} without being eaten")
+            done = full or sc >= tl
+        else:
+            done = True
+        if (int(ts.step_type) == 2) != done:
+            return ("termination", f"step_type {int(ts.step_type)} but the rules say done={done} (legal={bool(legal)}, step {sc}/{tl})")
+        return None
+
+    # ---- C11 -------------------------------------------------------------------------------------
+    def end_cause(self, ps, action, s, ts, env, cfg):
+        if not self.legal(ps, env)[int(action)]:
+            return "invalid_action"
+        if bool((np.asarray(s.body_state) > 0).all()):
+            return "board_full"
+        return None
+
+    # ---- C12 -------------------------------------------------------------------------------------
+    def observe(self, s, obs, env, cfg):
+        bs = np.asarray(s.body_state)
+        R, C = bs.shape
+        g = np.asarray(obs.grid)
+        if g.shape != (R, C, 5):
+            return ("grid_shape", f"{g.shape}")
+        head = np.zeros((R, C))
+        r, c = self._head(s)
+        if 0 <= r < R and 0 <= c < C:
+            head[r, c] = 1
+        fruit = np.zeros((R, C))
+        fr, fc = int(s.fruit_position.row), int(s.fruit_position.col)
+        if 0 <= fr < R and 0 <= fc < C:
+            fruit[fr, fc] = 1
+        planes = [(bs > 0).astype(float), head, (bs == 1).astype(float), fruit, bs / max(1, int(bs.max()))]
+        names = ["body", "head", "tail", "fruit", "normalised_body_order"]
+        inside = 0 <= r < R and 0 <= c < C  # after an out-of-board (terminal) move the head plane is unspecified
+        for k, (p, n) in enumerate(zip(planes, names)):
+            if n == "head" and not inside:
+                continue
+            if not np.allclose(g[..., k], p, atol=1e-6):
+                i = np.argwhere(~np.isclose(g[..., k], p, atol=1e-6))[0]
+                return (f"plane_{n}", f"plane {n} at {i.tolist()} = {g[..., k][tuple(i)]} expected {p[tuple(i)]}")
+        if int(obs.step_count) != int(s.step_count):
+            return ("step_count", f"obs {int(obs.step_count)} vs state {int(s.step_count)}")
+        if not np.array_equal(np.asarray(obs.action_mask), np.asarray(s.action_mask)):
+            return ("action_mask", "obs.action_mask != state.action_mask")
+        return None
+
+    # ---- policies ----------------------------------------------------------------------------------
+    def policy_survive(self, s, env, rng, legal):
+        if legal is None or not legal.any():
+            return None
+        bs = np.asarray(s.body_state)
+        R, C = bs.shape
+        r, c = self._head(s)
+        best, best_a = -1, None
+        order = [int(a) for a in rng.permutation(4)]
+        for a in order:
+            if not legal[a]:
+                continue
+            nr, nc = r + DELTA[a][0], c + DELTA[a][1]
+            blocked = bs > 1
+            seen = {(nr, nc)}
+            stack = [(nr, nc)]
+            while stack and len(seen) < 64:
+                i, j = stack.pop()
+                for dr, dc in DELTA:
+                    ii, jj = i + dr, j + dc
+                    if 0 <= ii < R and 0 <= jj < C and not blocked[ii, jj] and (ii, jj) not in seen:
+                        seen.add((ii, jj))
+                        stack.append((ii, jj))
+            if len(seen) > best:
+                best, best_a = len(seen), a
+        return best_a
+
+    def policy_complete(self, s, env, rng, legal):
+        """Head for the fruit (greedy, legal moves only)."""
+        if legal is None or not legal.any():
+            return None
+        r, c = self._head(s)
+        fr, fc = int(s.fruit_position.row), int(s.fruit_position.col)
+        best, best_a = None, None
+        for a in [int(x) for x in rng.permutation(4)]:
+            if legal[a]:
+                d = abs(r + DELTA[a][0] - fr) + abs(c + DELTA[a][1] - fc)
+                if best is None or d < best:
+                    best, best_a = d, a
+        return best_a
